@@ -19,7 +19,8 @@ class Side(object):
         self.cmds = collections.deque()
         self.results = {}
         self.errors = []           # exceptions escaping serve() while idle
-        self.thread = pair.sched.spawn(name, self._loop)
+        self.serve_all_result = None
+        self.thread = pair.sched.spawn(name, self._serve_all if name in pair.serve_all_sides else self._loop)
 
     def readable(self):
         st = self.stream
@@ -37,6 +38,16 @@ class Side(object):
         if self.pair.serve_eof:
             return self.readable()
         return bool(getattr(self.stream, "inbox", b"")) and not self.stream.closed
+
+    def _serve_all(self):
+        """a plain server: the side's thread sits in Connection.serve_all() until the connection ends"""
+        try:
+            self.conn.serve_all()
+            self.serve_all_result = ("returned", None)
+        except BaseException as ex:  # noqa
+            if isinstance(ex, sim.SimAbort):
+                raise
+            self.serve_all_result = ("raised", ex)
 
     def _loop(self):
         s = self.pair.sched
@@ -89,10 +100,11 @@ class Side(object):
 
 class Pair(object):
     def __init__(self, service_a, service_b, config_a=None, config_b=None, manual=False, compress=True,
-                 autoserve=True, patch_time=True, transport="sim", script=None, serve_eof=False):
+                 autoserve=True, patch_time=True, transport="sim", script=None, serve_eof=False, serve_all_sides=()):
         self.sched = s = sim.make_sched()
         self.undo_time = sim.patch_time(s) if patch_time else (lambda: None)
         self.autoserve = autoserve
+        self.serve_all_sides = tuple(serve_all_sides)
         self.serve_eof = serve_eof     # idle sides also serve when only an end-of-stream / closed stream is visible
         self._undo = []
         if transport == "sim":
